@@ -19,6 +19,7 @@ import re
 from engine import facts as F
 from engine import load
 from engine import sx
+from engine import terms as T
 
 LEVEL = "other"
 A = "fcppt::algorithm::"
@@ -473,6 +474,141 @@ def rule_wrap(rep, db, cfg):
         verdict(fn, key, why, ps)
 
 
+# ------------------------------------------------------------------------------------------------
+# ORDER / ERASE-SAFE / REMOVE-ALIAS
+
+def _invokes_param(u, n, pids):
+    """does expression n (not descending into lambdas) call a function-object PARAMETER of the enclosing function?"""
+    for c in F.walk(n, into_lambdas=False):
+        if c.get("k") != "call":
+            continue
+        if c.get("opcall") == "()" and c.get("recv") is not None:
+            r = c["recv"]
+        elif c.get("fn") is not None and c.get("callee") is None:
+            r = c["fn"]
+        else:
+            continue
+        r = T.unwrap(u, r)
+        if r is not None and r.get("k") == "ref" and r.get("id") in pids:
+            return r.get("id")
+    return None
+
+
+def rule_order(rep, db):
+    """several invocations of the caller's function inside ONE expression are sequenced only in a braced-init-list: array / tuple
+    construction from a pack of calls must use braces (left-to-right), otherwise a stateful function sees the indices in an
+    unspecified order"""
+    seen = {}
+    for fn in db.functions:
+        u = fn["_unit"]
+        f = u.file_of(fn["primary"])
+        if not f.startswith("libs/core/include/fcppt/") or not fn.get("params"):
+            continue
+        pids = set(p["id"] for p in fn["params"])
+        for n in F.walk(fn.get("body"), into_lambdas=False):
+            args = None
+            braced = False
+            if n.get("k") == "construct":
+                args, braced = n.get("args", []), bool(n.get("list"))
+            elif n.get("k") == "initlist":
+                args, braced = n.get("ch", []), True
+            elif n.get("k") == "call":
+                args = list(n.get("args", []))
+            if not args or len(args) < 2:
+                continue
+            inv = [i for i in (_invokes_param(u, a, pids) for a in args) if i is not None]
+            if len(inv) < 2 or len(set(inv)) != 1:
+                continue
+            key = "%s@%s" % (F.fn_name(F.top_function(fn)), f.split("fcppt/")[-1])
+            a = seen.setdefault(key, {"ok": True, "site": u.loc(n.get("loc")), "fn": F.describe(fn)[:160], "n": 0})
+            a["n"] += 1
+            if not braced:
+                a["ok"] = False
+                a["site"] = u.loc(n.get("loc"))
+    for key, a in sorted(seen.items()):
+        if a["ok"]:
+            rep.ok("ORDER", key, a["site"], a["fn"], how="braced-init-list (left-to-right)", detail={"expansions": a["n"]})
+        else:
+            rep.fail("ORDER", key, a["site"], a["fn"],
+                     why="the caller's function is invoked several times as arguments of one parenthesised call / constructor: the order of these "
+                         "invocations is unspecified (g++ evaluates right to left); only a braced-init-list guarantees index order")
+
+
+def rule_erase_safe(rep, db):
+    """a loop that removes from / inserts into container X must not compare against an end() of X cached before the loop"""
+    from engine import moves as M
+    n_loops = 0
+    for fn in db.functions:
+        u = fn["_unit"]
+        if not u.file_of(fn["primary"]).startswith("libs/core/include/fcppt/algorithm/"):
+            continue
+        for lp in F.walk(fn.get("body"), into_lambdas=False):
+            if lp.get("k") not in ("for", "while", "do"):
+                continue
+            muts = {}
+            for c in F.walk(lp.get("body")):
+                if c.get("k") == "call" and c.get("recv") is not None:
+                    short = (T.callee_qn(u, c) or "").split("::")[-1]
+                    if short in ("erase", "insert", "push_back", "pop_back", "clear", "resize", "emplace_back", "emplace"):
+                        muts[T.show(T.norm(u, c["recv"]))] = short
+            if not muts:
+                continue
+            n_loops += 1
+            cached = {}
+            scope = [lp.get("init")] + [x for x in (fn.get("body") or {}).get("ch", []) if x is not lp]
+            for v in F.walk(scope, into_lambdas=False):
+                if v.get("k") == "var" and v.get("init") is not None:
+                    t = T.unwrap(u, v["init"])
+                    while t is not None and t.get("k") == "construct" and len(t.get("args", [])) == 1:
+                        t = T.unwrap(u, t["args"][0])
+                    if t is not None and t.get("k") == "call" and (T.callee_qn(u, t) or "").split("::")[-1] in ("end", "cend") and t.get("recv") is not None:
+                        cached[v["id"]] = (T.show(T.norm(u, t["recv"])), v.get("name"))
+            bad = None
+            for r in F.walk(lp.get("cond"), into_lambdas=False):
+                if r.get("k") == "ref" and r.get("id") in cached and cached[r["id"]][0] in muts:
+                    bad = (cached[r["id"]], muts[cached[r["id"]][0]])
+            key = "%s|loop" % F.fn_name(fn)
+            if bad:
+                rep.fail("ERASE-SAFE", key, u.loc(lp.get("loc")), F.describe(fn)[:160],
+                         why="the loop compares against `%s`, an end() of %s taken before the loop, while its body calls %s() on that container: for "
+                             "vector / deque the cached end is invalid after the first removal" % (bad[0][1], bad[0][0], bad[1]))
+            else:
+                rep.ok("ERASE-SAFE", key, u.loc(lp.get("loc")), F.describe(fn)[:160], how="end() re-evaluated every iteration")
+    if not n_loops:
+        rep.broken("ERASE-SAFE: no mutating loop found in fcppt/algorithm (sequence_iteration / map_iteration vanished?)")
+
+
+def rule_remove_alias(rep, db):
+    """algorithm::remove(container, element): the predicate handed to remove_if holds a COPY of the element (the element may be
+    one of the container's own, which remove_if overwrites while it runs)"""
+    seen = set()
+    for fn in db.fns(A + "remove"):
+        u = fn["_unit"]
+        if len(fn.get("params", [])) != 2 or F.primary_site(fn) in seen:
+            continue
+        seen.add(F.primary_site(fn))
+        cont, el = fn["params"][0], fn["params"][1]
+        calls = [n for n in F.walk(fn.get("body"), into_lambdas=False) if n.get("k") == "call" and (T.callee_qn(u, n) or "") == A + "remove_if"]
+        why = None
+        if len(calls) != 1 or T.show(T.norm(u, calls[0]["args"][0])) != cont["name"]:
+            why = "remove is not one call of remove_if on its own container"
+        else:
+            lam = T.unwrap(u, calls[0]["args"][1])
+            caps = lam.get("captures", []) if lam is not None and lam.get("k") == "lambda" else None
+            if caps is None:
+                why = "the predicate is not a lambda over the element"
+            else:
+                c = [x for x in caps if x.get("id") == el["id"] or x.get("name") == el["name"]]
+                if not c:
+                    why = "the predicate does not use the element"
+                elif c[0].get("by") != "copy":
+                    why = ("the predicate captures the element by reference: if it is an element of the container itself, std::remove_if overwrites it "
+                           "while the predicate is still comparing against it")
+        (rep.fail if why else rep.ok)("REMOVE-ALIAS", "remove<%s>" % ",".join(fn.get("targs") or [])[:60], F.primary_site(fn), F.describe(fn)[:160],
+                                      **({"why": why} if why else {"how": "remove_if(container, [copy of element](x){ x == element })"}))
+        break
+
+
 def main(rep, tier, only):
     db = load.load(tier, lib=False, drivers=["drv_algorithms"])
     rep.extra.update(db.stats())
@@ -482,6 +618,16 @@ def main(rep, tier, only):
                       "order -- on every path of a twice-unrolled run-time range", floor=40)
     rep.rule("WRAP", "wrappers over std algorithms (find_opt, find_if_opt, index_of, contains, remove_if) call the algorithm once over "
                      "[begin, end) of their own range with their own argument and convert the result as documented", floor=12)
+    rep.rule("ORDER", "several invocations of the caller's function inside one expression occur only in a braced-init-list (array / tuple "
+                      "construction from a pack of calls is evaluated in index order)", floor=2)
+    rep.rule("ERASE-SAFE", "a loop in fcppt::algorithm that removes from its container re-evaluates end() every iteration", floor=1)
+    rep.rule("REMOVE-ALIAS", "algorithm::remove compares against a copy of the element, not a reference into the container it mutates", floor=1)
+    if only in (None, "ORDER"):
+        rule_order(rep, db)
+    if only in (None, "ERASE-SAFE"):
+        rule_erase_safe(rep, db)
+    if only in (None, "REMOVE-ALIAS"):
+        rule_remove_alias(rep, db)
     if only in (None, "VISIT"):
         rule_visit(rep, db, cfg)
     if only in (None, "WRAP"):
